@@ -1394,9 +1394,13 @@ def _coef_of(r: Rat, pred: Callable[[Any], bool]) -> Optional[Fraction]:
 def _objective_sign(c_val) -> Optional[Fraction]:
     """Sign factor multiplying the coefficients in an LP objective expression."""
     # list comprehension: [pol * coef(var) for var in ...]
+    body = c_val[1] if isinstance(c_val, tuple) and c_val[0] == "listcomp" else c_val
+    r = to_rat(body)
+    if not r.num and set(r.den) == {()}:
+        return Fraction(0)  # the coefficients are multiplied away: a zero objective
     if isinstance(c_val, tuple) and c_val[0] == "listcomp":
-        return _coef_of(to_rat(c_val[1]), lambda a: isinstance(a, tuple) and a[0] in ("mcall", "sub", "ifexp"))
-    return _coef_of(to_rat(c_val), lambda a: isinstance(a, tuple) and a[0] in ("call", "sub", "mcall", "listcomp"))
+        return _coef_of(r, lambda a: isinstance(a, tuple) and a[0] in ("mcall", "sub", "ifexp"))
+    return _coef_of(r, lambda a: isinstance(a, tuple) and a[0] in ("call", "sub", "mcall", "listcomp"))
 
 
 def rule_polarity(ctx: Ctx, key: str, flag: str, neg_when: bool, result_kind: str, rule: str = "polarity") -> None:
@@ -2076,6 +2080,48 @@ def rule_lp_emptiness_shortcuts(ctx: Ctx, rule: str = "lp-shortcut") -> None:
     ctx.ok(rule, key, construct + " (%d paths)" % len(ps))
 
 
+def rule_optimize_unconstrained(ctx: Ctx, rule: str = "lp-zero-rows") -> None:
+    """C12: a list without terms constrains nothing: the optimum is None (unbounded) for every objective but the zero
+    one.  termlist_to_polytope turns such a list into `np.array([])` - one dimension, no columns - which scipy's
+    linprog rejects with a ValueError of its own ("A_ub must have exactly two dimensions"): the caller is told the
+    contract is unsatisfiable although everything satisfies it.  Decided with `self.terms` fixed to empty: linprog
+    must not be reached with the converted matrix."""
+    prog = ctx.prog
+    key = PTL + "optimize"
+    fi = prog.func(key)
+    me = ("param", fi.params[0])
+    terms = ("attr", me, "terms")
+
+    def scen(v):
+        if not isinstance(v, tuple) or not v:
+            return None
+        if v == ("un", "Not", terms):
+            return const(True)
+        if v[0] == "cmp" and v[2] == ("call", "len", (terms,), ()) or (v[0] == "cmp" and isinstance(v[2], tuple) and v[2][:2] == ("call", "len") and v[2][2] == (terms,)):
+            if v[3] == const(0) and v[1] in ("Eq", "NotEq", "Gt", "LtE"):
+                return const(v[1] in ("Eq", "LtE"))
+            if v[3] == const(1) and v[1] in ("Lt", "GtE"):
+                return const(v[1] == "Lt")
+        if v[0] == "mcall" and v[1] == "lacks_constraints" and v[2] == me:
+            return const(True)
+        return None
+
+    construct = "PolyhedralTermList.optimize: a list without terms is answered without handing the solver a matrix that has no columns"
+    ps = Sim(prog, fi, assume=status_assume(None, scen), loop_iters=(0, 1)).paths()
+    bad = None
+    for p in ps:
+        for lp in p.calls("linprog"):
+            a_ub = kw_of(lp, "A_ub")
+            if a_ub is not None and a_ub != const(None) and any(isinstance(x, tuple) and x and x[0] == "call" and str(x[1]).endswith("termlist_to_polytope") for x in walk(a_ub)):
+                bad = (p, a_ub)
+    if bad is not None:
+        ctx.violation(rule, key, construct, "with self.terms empty linprog is still called with A_ub=%s: the conversion of an empty list is a one-dimensional empty array, scipy refuses it with its own ValueError, and an unconstrained (hence unbounded) problem is reported as unsatisfiable" % show(bad[1], 3), where=fi.where)
+    elif not ps:
+        ctx.cannot_decide(rule, key, construct, "no path")
+    else:
+        ctx.ok(rule, key, construct + " (%d paths)" % len(ps))
+
+
 def _position_names(fi: FuncInfo) -> Set[str]:
     """Names used to index the tested row ( a_temp[i, :] / b_temp[i] )."""
     out: Set[str] = set()
@@ -2189,7 +2235,7 @@ def rule_lp_result_use(ctx: Ctx, key: str, rule: str = "lp-result-use") -> None:
     ctx.floor("%s LP paths under a failed solve" % short, n, 2)
 
 
-def rule_lp_zero_columns(ctx: Ctx, key: str, mats: List[str], vecs: List[str], rule: str = "lp-zero-columns", any_of: bool = False) -> None:
+def rule_lp_zero_columns(ctx: Ctx, key: str, mats: List[str], vecs: List[str], rule: str = "lp-zero-columns", any_of: bool = False, allow_lp: bool = False) -> None:
     """C11/C03/C07/C14: a list whose terms mention no variable at all (rows '0 <= b', e.g. after like terms cancel)
     becomes a matrix with rows and no columns.  Decided with the column count fixed to 0 and at least one row:
     (i) linprog is never reached (scipy rejects an empty objective with a ValueError of its own, so the answer would be
@@ -2228,7 +2274,9 @@ def rule_lp_zero_columns(ctx: Ctx, key: str, mats: List[str], vecs: List[str], r
     if not ps:
         ctx.cannot_decide(rule, key, construct, "no path")
         return
-    lp = [p for p in ps if p.calls("linprog")]
+    if allow_lp:
+        construct = "%s: %s rows without any column (0 <= b) are decided from their bounds %s" % (short, "/".join(mats), "/".join(vecs))
+    lp = [p for p in ps if p.calls("linprog")] if not allow_lp else []
     if lp:
         ctx.violation(rule, key, construct, "linprog is reached with an empty objective (no columns): scipy rejects the call although the question is decidable from the bounds alone (path %s)" % lp[0].label()[:160], where=fi.where)
         return
